@@ -19,12 +19,13 @@ func SetScalar(value string) SetFn {
 // It can be used with an empty name to set both a value and a tag on a scalar node.
 // When setting only a value on a scalar node, use SetScalar instead.
 func SetEntry(name, value, tag string) SetFn {
-	n := &yaml.Node{
-		Kind:  yaml.ScalarNode,
-		Value: value,
-		Tag:   tag,
-	}
 	return func(node *yaml.RNode) error {
+		// a fresh node per invocation: locations set by one SetFn must not share a yaml.Node
+		n := &yaml.Node{
+			Kind:  yaml.ScalarNode,
+			Value: value,
+			Tag:   tag,
+		}
 		return node.PipeE(yaml.FieldSetter{
 			Name:  name,
 			Value: yaml.NewRNode(n),
